@@ -194,7 +194,24 @@ fn relation(op: &Op, pre: &NTree, post: &NTree, res: &Res, sa: &str, da: &str, w
     let follow_with_links = follow && pre.subtree(&sroot).iter().any(|k| matches!(pre.nodes[k].kind, NKind::Link { .. }));
     for k in pre.subtree(&sroot) {
         if follow_with_links {
-            break;
+            // what is behind the links is misplaced (recorded finding) and may collide with anything, but a copy
+            // that reports success still has to have made the directories and files the source tree itself holds
+            let s = &pre.nodes[&k];
+            if matches!(s.kind, NKind::Link { .. }) || k == droot || is_under(&k, &droot) || pre.subtree(&sroot).iter().any(|a| is_under(&k, a) && matches!(pre.nodes[a].kind, NKind::Link { .. })) {
+                continue;
+            }
+            let d = format!("{}{}", droot, if k == sroot { "" } else if sroot == "/" { k.as_str() } else { &k[sroot.len()..] });
+            let present = match (&s.kind, post.nodes.get(&d).map(|n| &n.kind)) {
+                (NKind::Dir, Some(NKind::Dir)) | (NKind::File(_), Some(NKind::File(_))) => true,
+                // (something misplaced may sit there instead: only absence is judged)
+                (_, Some(_)) => true,
+                (_, None) => false,
+            };
+            if !present {
+                v.push((format!("copy-of-every-{}-present→missing", kind_name(s)), format!("{} → {}", k, d)));
+                break;
+            }
+            continue;
         }
         if k == droot || is_under(&k, &droot) {
             continue; // copying into its own subtree: only the entries that existed at the start count
